@@ -319,7 +319,16 @@ def _check_marker(repo, r3):
 
 # ---------------------------------------------------------------------------------------------------------------- R19.4
 def _check_files(repo, r4, ci):
-    LP = [("attr", ("param", "self"), "__local_path"), ("param", "local_path")]
+    # the path under which the array lives: self.__local_path and the constructor parameter it is taken from (whatever its name)
+    LP = [("attr", ("param", "self"), "__local_path")]
+    init_ = ci.methods.get("__init__")
+    if init_ is not None:
+        for st in ast.walk(init_.node):
+            if isinstance(st, ast.Assign) and any(isinstance(t, ast.Attribute) and t.attr == "__local_path" and isinstance(t.value, ast.Name) and t.value.id == "self" for t in st.targets) \
+                    and isinstance(st.value, ast.Name) and st.value.id in init_.params:
+                LP.append(("param", st.value.id))
+    if len(LP) == 1:
+        LP.append(("param", "local_path"))
     METAS = [("binop", "Add", lp, ("const", "_meta")) for lp in LP]
 
     def chunk_id(t):
